@@ -152,6 +152,13 @@ theorem swap_done_obeys_switch (c : Config) (ms : List Method) (ski hash : Strin
     (c.disableMultiSwaps = true → invoke (some c) ms (.cert ski hash ous) "multiSwapDone" = .refuse .swapsOff) := by
   constructor <;> intro hs <;> simp [invoke, h, hs]
 
+/-- ... and the robot's lists inside a batch: neither answers nor completing keys are processed for
+    a kind the configuration in force switches off — whatever was begun under an earlier configuration -/
+theorem batch_lists_obey_switch (c : Config) (h : c.hasOptions = true) :
+    (c.disableSwaps = true → sectionRuns c .swapAnswers = false ∧ sectionRuns c .swapKeys = false) ∧
+    (c.disableMultiSwaps = true → sectionRuns c .multiAnswers = false ∧ sectionRuns c .multiKeys = false) := by
+  constructor <;> intro hs <;> simp [sectionRuns, h, hs]
+
 /-- `admin_methods_admin_only`: the privileged effect of an admin-only method (balance locks, forced
     balance transfer, transfer on behalf of a user) happens only for the configured admin address. -/
 theorem admin_methods_admin_only (c : Config) (m : Method) (sender : String)
